@@ -161,8 +161,63 @@ class Validator:
             if not any(self.has(cls, a + suffix) for a in alts):
                 raise Refuse("AttributeError", f"check_attrs({who}: {' or '.join(alts)}{suffix})")
 
+    UNKNOWN = object()
+
+    def val(self, e, cell, names):
+        """value of a simple expression of custom_checks (constants, locals, class names of
+        the cell's datafit / penalty); UNKNOWN otherwise"""
+        U = self.UNKNOWN
+        if isinstance(e, ast.Constant):
+            return e.value
+        if isinstance(e, ast.Name):
+            return self.locals.get(e.id, U)
+        if isinstance(e, (ast.Tuple, ast.List)):
+            vs = [self.val(x, cell, names) for x in e.elts]
+            return U if any(v is U for v in vs) else tuple(vs)
+        if isinstance(e, ast.Attribute) and e.attr == "__name__":
+            b = e.value
+            tgt = None
+            if isinstance(b, ast.Attribute) and b.attr == "__class__":
+                tgt = ast.unparse(b.value)
+            elif isinstance(b, ast.Call) and ast.unparse(b.func) == "type" and len(b.args) == 1:
+                tgt = ast.unparse(b.args[0])
+            if tgt in (names["datafit"], names["penalty"]):
+                cls = cell["datafit"] if tgt == names["datafit"] else cell["penalty"]
+                return U if cls is None else cls.name
+        return U
+
     def cond(self, e, cell, names):
         """evaluate a boolean expression of custom_checks; None = unknown"""
+        if isinstance(e, ast.Compare) and len(e.ops) == 1 and isinstance(
+                e.ops[0], (ast.In, ast.NotIn, ast.Eq, ast.NotEq)):
+            a, b = self.val(e.left, cell, names), self.val(e.comparators[0], cell, names)
+            if a is not self.UNKNOWN and b is not self.UNKNOWN and (isinstance(a, str) or isinstance(b, str)):
+                try:
+                    r = {ast.In: lambda: a in b, ast.NotIn: lambda: a not in b,
+                         ast.Eq: lambda: a == b, ast.NotEq: lambda: a != b}[type(e.ops[0])]()
+                    return bool(r)
+                except TypeError:
+                    return None
+        if isinstance(e, ast.Call) and isinstance(e.func, ast.Attribute) and e.func.attr in ("startswith", "endswith") \
+                and len(e.args) == 1:
+            a, b = self.val(e.func.value, cell, names), self.val(e.args[0], cell, names)
+            if isinstance(a, str) and isinstance(b, (str, tuple)):
+                return getattr(a, e.func.attr)(b)
+        if isinstance(e, ast.Call) and ast.unparse(e.func) == "isinstance" and len(e.args) == 2:
+            tgt = ast.unparse(e.args[0])
+            if tgt in (names["datafit"], names["penalty"]):
+                cls = cell["datafit"] if tgt == names["datafit"] else cell["penalty"]
+                if cls is None:
+                    return False
+                kinds = e.args[1].elts if isinstance(e.args[1], (ast.Tuple, ast.List)) else [e.args[1]]
+                res = False
+                for k in kinds:
+                    r = self.A.prog.resolve(self.module, ast.unparse(k)) if getattr(self, "module", None) else None
+                    if r is None or isinstance(r, tuple):
+                        return None
+                    if cls is r or cls.is_subclass_of(r):
+                        res = True
+                return res
         if isinstance(e, ast.BoolOp):
             vals = [self.cond(v, cell, names) for v in e.values]
             if isinstance(e.op, ast.And):
@@ -213,6 +268,9 @@ class Validator:
                 raise Refuse(exc, "custom_checks raise")
             if isinstance(st, ast.Return):
                 raise _Done()
+            if isinstance(st, ast.Assign) and len(st.targets) == 1 and isinstance(st.targets[0], ast.Name):
+                self.locals[st.targets[0].id] = self.val(st.value, cell, names)
+                continue
             if isinstance(st, ast.Expr) and isinstance(st.value, ast.Call):
                 c = st.value
                 fn = ast.unparse(c.func)
@@ -239,6 +297,8 @@ class Validator:
     def validate(self, solver, cell):
         cc = solver.find_method("custom_checks")
         names = dict(zip(["X", "y", "datafit", "penalty"], cc.call_params()))
+        self.locals = {}
+        self.module = cc.module
         try:
             self.run_block(cc.node.body, cell, names, solver)
         except _Done:
@@ -385,6 +445,21 @@ def knob_space(sf):
     return space
 
 
+def _mentions_datafit(sf):
+    """the datafit parameter of _solve is read somewhere in its body (nested functions
+    included)"""
+    params = sf.f.call_params()
+    if len(params) < 3:
+        return True
+    dname = params[2]
+    return any(isinstance(n, ast.Name) and n.id == dname and isinstance(n.ctx, ast.Load)
+               for n in ast.walk(sf.f.node))
+
+
+# solvers that never call the datafit object: the loss they minimise by construction
+HARDCODED_LOSS = {"GramCD": {"Quadratic"}}
+
+
 def r_matrix(A, ctx, scope, rule="R-MATRIX", tier="quick"):
     ctx.rule(rule, "composition matrix: for every solver x datafit x penalty x "
              "{dense, CSC} x knob valuation, validation is evaluated statically (refused: "
@@ -396,6 +471,7 @@ def r_matrix(A, ctx, scope, rule="R-MATRIX", tier="quick"):
     prog = A.prog
     V = Validator(A)
     cells = accepted = refused = 0
+    ignored = {}
     late = {}
     broken = {}
     per_solver = {}
@@ -425,6 +501,9 @@ def r_matrix(A, ctx, scope, rule="R-MATRIX", tier="quick"):
                             continue
                         accepted += 1
                         per_solver.setdefault(sname, [0, 0])[0] += 1
+                        if D is not None and not _mentions_datafit(sf) \
+                                and D.name not in HARDCODED_LOSS.get(sf.cls.name, ()):
+                            ignored.setdefault((sname, D.name), (sf, sparse, knobs))
                         cell_broken, cell_late_roots = [], []
                         for role, name, nargs, level, f, node, guards, root in sites:
                             K = D if role == "DATAFIT" else P
@@ -474,6 +553,12 @@ def r_matrix(A, ctx, scope, rule="R-MATRIX", tier="quick"):
                                 continue
                             broken.setdefault(key, rec)
     ctx.ob(rule, "cells-enumerated", True, detail=f"{cells} cells: {accepted} accepted, {refused} refused")
+    for (sname, dname), (sf, sparse, knobs) in sorted(ignored.items()):
+        ctx.ob(rule, f"{sf.f.fq}::ignored-datafit::{dname}", False,
+               what=f"{sname} accepts the datafit {dname} but never calls any of its methods: it "
+                    "minimises its built-in loss and returns a point (and a stopping value) of "
+                    f"another problem than the requested {dname} composition",
+               loc=loc(sf.f, sf.f.node))
     for key, (f, node, K, sname, sparse, knobs, why) in sorted(broken.items()):
         ctx.ob(rule, key, False,
                what=f"{sname} accepts {K.name} ({'CSC' if sparse else 'dense'}, {knobs}) but "
